@@ -21,7 +21,8 @@ summary is about meaning, not spelling:
     names `stream` (anything obtained from the stream registry / create_stream) and `task` (anything
     obtained from the task table / create_task);
   * what is recorded:
-      get / index / values / pop[/n] / setitem / del   on  self.<container>     (tolerant versus raising lookups)
+      get / index / values / pop[/n] / del   on  self.<container>     (tolerant versus raising lookups)
+      store / unstore <container> <- <atoms>  (set.add/update, list.append/extend, d[k] = v are the same thing)
       call <receiver path>.<method>(<atoms of arg 1>; <atoms of arg 2>; ...)
       set <target path> <- <atoms>
       raise <Exception>, catch <Exceptions of a try>, del[-tolerant] <target>
@@ -76,7 +77,17 @@ class Scope:
 
     def __init__(self, tree, cls):
         self.cls = cls
-        self.methods, self.funcs = {}, {}
+        self.methods, self.funcs, self.consts = {}, {}, {}
+        for n in tree.body:
+            # module-level NAME = <constant expression>: a reference to it is the constant
+            if isinstance(n, (ast.Assign, ast.AnnAssign)):
+                tg = n.targets[0] if isinstance(n, ast.Assign) and len(n.targets) == 1 else \
+                    (n.target if isinstance(n, ast.AnnAssign) else None)
+                if isinstance(tg, ast.Name) and n.value is not None and all(
+                        isinstance(x, (ast.Constant, ast.Tuple, ast.List, ast.JoinedStr, ast.BinOp, ast.Add,
+                                       ast.Load, ast.Mod, ast.Mult))
+                        for x in ast.walk(n.value)):
+                    self.consts[tg.id] = n.value
         for n in tree.body:
             if isinstance(n, ast.ClassDef) and n.name == cls:
                 for m in n.body:
@@ -119,6 +130,8 @@ class Summary:
         if isinstance(e, ast.Name):
             if e.id in env:
                 return set(env[e.id])
+            if e.id in self.scope.consts:
+                return self.atoms(self.scope.consts[e.id], {}, depth)
             return {e.id}
         if isinstance(e, ast.Attribute):
             base = self.atoms(e.value, env, depth)
@@ -251,6 +264,17 @@ class Summary:
         recv = self.atoms(f.value, env, depth)
         # container protocol on self.<container> (also through an alias obtained with getattr)
         containers = {r for r in recv if r.startswith('self.') or r == '_streams'}
+        if f.attr in ('add', 'update', 'append', 'extend', 'discard', 'remove') and containers and \
+                all(r.count('.') == 1 for r in containers):
+            # remembering / forgetting something in a container: a set's add/update, a list's append/extend
+            # and a dict's d[x] = ... all say the same thing
+            what = set()
+            for a in args:
+                what |= a
+            for r in sorted(containers):
+                self.tokens.add('%s %s <- %s' % ('store' if f.attr in ('add', 'update', 'append', 'extend')
+                                                 else 'unstore', r, self.show(what)))
+            return set()
         if f.attr in ('get', 'values', 'items', 'keys', 'pop', 'setdefault') and containers and \
                 all(r.count('.') == 1 or r == '_streams' for r in containers):
             for r in sorted(containers):
@@ -307,8 +331,9 @@ class Summary:
                 self.tokens.add('set %s.%s <- %s' % (b, '_' if private(target.attr) else target.attr,
                                                    self.show(value)))
         elif isinstance(target, ast.Subscript):
+            key = self.atoms(target.slice, env)
             for b in sorted(self.atoms(target.value, env) or {anon(u(target.value))}):
-                self.tokens.add('setitem %s' % b)
+                self.tokens.add('store %s <- %s' % (b, self.show(set(key) | set(value))))
         else:
             raise Unsupported('C12 facts: assignment target ' + u(target))
 
